@@ -2,7 +2,7 @@
     Property theorems only.  The statements are about [combine_paths], the model of
     sciparse::path::combinator::combine, for every hash function standing for SHA-256 and every
     HashMap iteration order (any function returning a permutation). *)
-From Sci Require Import Combine.Model Combine.Spec Combine.Obs Combine.Proofs Combine.ProofsC19 Combine.ProofsC04 Combine.ProofsMeta Combine.ProofsPath Combine.ProofsWF Combine.SpecRules Combine.ProofsSound Combine.ProofsIfaces Combine.ProofsOrder Combine.ProofsComplete Combine.ProofsGraph Combine.ProofsPerm Combine.ProofsTies Combine.ProofsHops.
+From Sci Require Import Combine.Model Combine.Spec Combine.Obs Combine.Proofs Combine.ProofsC19 Combine.ProofsC04 Combine.ProofsMeta Combine.ProofsPath Combine.ProofsWF Combine.SpecRules Combine.ProofsSound Combine.ProofsIfaces Combine.ProofsOrder Combine.ProofsComplete Combine.ProofsGraph Combine.ProofsPerm Combine.ProofsTies Combine.ProofsHops Combine.ProofsLoopfree.
 From Coq Require Import Permutation Sorted.
 Local Open Scope N_scope.
 
@@ -238,23 +238,24 @@ Proof.
 Qed.
 Print Assumptions combine_order_irrelevant.
 
-(** Completeness: every combination allowed by the SCION rules of [SpecRules] is found.  For
-    well-formed segments (as above, and peer entries of an AS entry naming pairwise different
-    peering links) and a valid combination [uses] from [src] to [dst] that does not pass
-    through the destination AS before its end, the search contains the corresponding solution
-    (edge by edge: same segment, same shortcut and peer index).  If the path of that solution
-    is produced at all (it encodes: at most 63 hop fields per segment and 984 bytes; its
-    interface list is non-empty and even) then it consists, use by use, of exactly the hop
-    fields of the combination, and unless it is dropped by the loop filter the result
-    contains a path with the same fingerprint (same source, destination and hop-field
-    interface sequence) whose expiry is at least as late -- duplicate filtering keeps the
-    latest expiry ([dedup_keeps_latest_expiry]). *)
+(** Completeness: every combination allowed by the SCION rules of [SpecRules] is represented
+    in the result.  For well-formed segments (as above, and the peer entries of an AS entry
+    naming pairwise different peering links) and ANY valid combination [uses] from [src] to
+    [dst] there is the corresponding chain of edges of the search graph (edge by edge: same
+    segment, same shortcut and peer index); if the path of that chain is produced at all (it
+    encodes: at most 63 hop fields per segment and 984 bytes; its interface list is non-empty
+    and even) then it consists, use by use, of exactly the hop fields of the combination, and
+    if it is loop-free (no AS with more than two interfaces) the result contains a path with
+    the same fingerprint (same source, destination and hop-field interface sequence) whose
+    expiry is at least as late.  (Loop-freeness of the path is what guarantees that the
+    combination does not pass through the destination early, the one situation in which the
+    search does not extend a partial solution.) *)
 Theorem combine_complete :
   forall Hid Hfp ord_v ord_e src dst cores non_cores out uses,
     order_ok ord_v ord_e ->
     wf_input cores non_cores ->
     combine_paths Hid Hfp ord_v ord_e src dst cores non_cores = Ok out -> src <> dst ->
-    ValidCombination cores non_cores src dst uses -> NoEarlyDst dst uses ->
+    ValidCombination cores non_cores src dst uses ->
     exists l,
       Forall2 (EdgeOfUse Hid) l uses
       /\ forall p, sol_path Hfp (mkSol l (VAS dst) (edges_weight l)) = Ok (Some p) ->
@@ -262,8 +263,8 @@ Theorem combine_complete :
            /\ (has_loops p = Ok false ->
                exists q, In q out /\ sp_fp q = sp_fp p /\ path_expiration p <= path_expiration q).
 Proof.
-  intros Hid Hfp ord_v ord_e src dst cores non_cores out uses [Hv He] Hwf Hout Hne Hvc Hearly.
-  exact (combine_complete_lemma _ _ _ _ _ _ _ _ _ _ Hv He Hwf Hout Hne Hvc Hearly).
+  intros Hid Hfp ord_v ord_e src dst cores non_cores out uses [Hv He] Hwf Hout Hne Hvc.
+  exact (combine_complete_loopfree_lemma _ _ _ _ _ _ _ _ _ _ Hv He Hwf Hout Hne Hvc).
 Qed.
 Print Assumptions combine_complete.
 
@@ -317,3 +318,19 @@ Proof.
   intros L src dst H. apply no_adjacent_ties_noties; [apply KInv_graph_of'|exact H].
 Qed.
 Print Assumptions tie_test_sound.
+
+(** Non-vacuity of [combine_sound] / [combine_complete]: the combination "up-segment from AS 2
+    to the core AS 1, down-segment from AS 1 to AS 3" is a [ValidCombination] of the example
+    segment set above. *)
+Example valid_combination_example :
+  let up := mkSeg 1700000000 7 [mkAE 1 2 1400 0 (mkHF 63 0 1 11) []; mkAE 2 0 1400 1400 (mkHF 63 1 0 12) []] in
+  let down := mkSeg 1700000000 9 [mkAE 1 3 1400 0 (mkHF 63 0 2 13) []; mkAE 3 0 1400 1400 (mkHF 63 1 0 14) []] in
+  ValidCombination [] [up; down] 2 3 [mkUse NonCore up 0 None Against; mkUse NonCore down 0 None Along].
+Proof.
+  cbv zeta. split; [cbn; auto|]. split.
+  - constructor; [cbn; auto|constructor; [cbn; auto|constructor]].
+  - cbn [Chained]. exists (JAS 1). split.
+    + eexists 2, _. split; [reflexivity|]. split; [reflexivity|]. cbn. repeat split; auto; discriminate.
+    + exists (JAS 3). split; [|reflexivity].
+      eexists 3, _. split; [reflexivity|]. split; [reflexivity|]. cbn. repeat split; auto; discriminate.
+Qed.
